@@ -99,10 +99,14 @@ def pipeline(ctx, cases_by=None):
     if cases_by is None:
         cnt = collections.Counter()
         allc = []
-        # (1) every behaviour of the whole alphabet (small argument classes) to depth 2 / 3
-        d1 = 2 if q else 3
-        depths = {"all": d1}
-        allc += ctx.tlc_gen("Defs_MC.tla", gencfg(ctx, "gen_bfs_all.cfg", ALLOPS, SMALL, d1), "bfsall")
+        # (1) every behaviour of the whole alphabet (small argument classes) to depth 2; in the thorough tier also
+        #     depth 3 without the operations that emit no ids (plain paragraph/table/header/footer, file Save)
+        depths = {"all": 2}
+        allc += ctx.tlc_gen("Defs_MC.tla", gencfg(ctx, "gen_bfs_all.cfg", ALLOPS, SMALL, 2), "bfsall")
+        if not q:
+            ops3 = [o for o in ALLOPS if o not in ("AddParagraph", "AddHeader", "AddFooter", "AddTable", "SaveFile", "RemoveNote")]
+            allc += ctx.tlc_gen("Defs_MC.tla", gencfg(ctx, "gen_bfs_all3.cfg", ops3, SMALL, 3), "bfsall3")
+            depths["all-without-idless-ops"] = 3
         # (2) every behaviour of each focused alphabet, deeper
         for name, ops, args, dq, dt in GROUPS:
             d2 = dq if q else dt
@@ -113,7 +117,7 @@ def pipeline(ctx, cases_by=None):
         ctx.exhaustive = True
         # (3) seeded random long behaviours over the wide argument classes
         d3 = 10 if q else 16
-        allc += ctx.tlc_gen("Defs_MC.tla", gencfg(ctx, "gen_sim.cfg", ALLOPS, WIDE, d3), "sim", mode="sim", num=6 if q else 60, depth=d3 + 1)
+        allc += ctx.tlc_gen("Defs_MC.tla", gencfg(ctx, "gen_sim.cfg", ALLOPS, WIDE, d3), "sim", mode="sim", num=6 if q else 30, depth=d3 + 1)
         count_ops(cnt, allc)
         # one execution + one judge run over everything (case ids are unique across generators)
         ctx.cases_by_tag["gen"] = {c["id"]: c for c in allc}
